@@ -370,6 +370,229 @@ theorem batch_ok_iff (order : List Nat) (hperm : order.Perm (List.range' slotBas
 
 end
 
+
+/-! ### all batches: the hand-over from one batch to the next -/
+
+theorem job_newprev (lastprev : Option BM) (slotBase lh : Nat) (resp : Nat → BM) (s s' : BState) (rq : Nat)
+    (hj : job true lastprev slotBase lh s rq (resp rq) = some s') :
+    (resp rq).height = rq ∧ s'.newprev = if rq = lh then some (resp rq) else s.newprev := by
+  unfold job at hj
+  by_cases hh : (resp rq).height = rq
+  · simp only [hh, decide_true, Bool.not_true, Bool.and_false, Bool.false_eq_true, if_false] at hj
+    refine ⟨hh, ?_⟩
+    cases hv : isValidMaps (resp rq) s.maps lastprev slotBase with
+    | none => rw [hv] at hj; cases hj
+    | some m => rw [hv] at hj; injection hj with hj; subst hj; rfl
+  · simp [hh] at hj
+
+theorem foldJobs_newprev (lastprev : Option BM) (slotBase lh : Nat) (resp : Nat → BM) :
+    ∀ (rest : List Nat) (s s' : BState), foldJobs lastprev slotBase lh resp (some s) rest = some s' →
+      s'.newprev = if lh ∈ rest then some (resp lh) else s.newprev := by
+  intro rest
+  induction rest with
+  | nil => intro s s' h; simp [foldJobs] at h; subst h; simp
+  | cons r rs ih =>
+    intro s s' h
+    have hunf : foldJobs lastprev slotBase lh resp (some s) (r :: rs) =
+        foldJobs lastprev slotBase lh resp (job true lastprev slotBase lh s r (resp r)) rs := by
+      simp [foldJobs]
+    rw [hunf] at h
+    cases hj : job true lastprev slotBase lh s r (resp r) with
+    | none => rw [hj, foldJobs_none] at h; cases h
+    | some s1 =>
+      rw [hj] at h
+      have h1 := ih s1 s' h
+      have h2 := (job_newprev lastprev slotBase lh resp s s1 r hj).2
+      rw [h1, h2]
+      by_cases e : r = lh
+      · subst e; by_cases hm : r ∈ rs <;> simp [hm]
+      · have : (lh ∈ r :: rs) ↔ lh ∈ rs := by simp [Ne.symm e]
+        by_cases hm : lh ∈ rs <;> simp [hm, e, Ne.symm e]
+
+/-- the chain from job `i` on: requested heights, the first of them linked to `np` (or genesis), each next one to
+    its predecessor -/
+def GoodFrom (np : Option BM) (reqBase size : Nat) (resp : Nat → BM) (i : Nat) : Prop :=
+  (∀ k, i ≤ k → k < size → (resp (reqBase + k)).height = reqBase + k) ∧
+  (i < size → ((resp (reqBase + i)).height = 0 ∨ ∃ p, np = some p ∧ (resp (reqBase + i)).prev = p.hash)) ∧
+  (∀ k, i ≤ k → k + 1 < size → (resp (reqBase + k + 1)).prev = (resp (reqBase + k)).hash)
+
+/-- the batches start at multiples of the limit (so the slot count the code computes is the batch size) -/
+def Aligned (limit : Nat) (bs : List Batch) : Prop := ∀ b ∈ bs, b.first % limit = 0
+
+theorem len_eq (limit : Nat) (b : Batch) (hl : 0 < limit) (ha : b.first % limit = 0) (h1 : b.first ≤ b.last)
+    (h2 : b.last + 1 ≤ b.first + limit) :
+    (if (b.last + 1) % limit = 0 then limit else (b.last + 1) % limit) = b.last - b.first + 1 := by
+  obtain ⟨q, hq⟩ : ∃ q, b.first = limit * q := ⟨b.first / limit, by have := Nat.div_add_mod b.first limit; omega⟩
+  have hn : b.last + 1 = limit * q + (b.last - b.first + 1) := by omega
+  by_cases hfull : b.last - b.first + 1 = limit
+  · have : (b.last + 1) % limit = 0 := by
+      rw [hn, hfull, ← Nat.mul_succ]; exact Nat.mul_mod_right _ _
+    simp [this, hfull]
+  · have hlt : b.last - b.first + 1 < limit := by omega
+    have : (b.last + 1) % limit = b.last - b.first + 1 := by
+      rw [hn, Nat.mul_add_mod]; exact Nat.mod_eq_of_lt hlt
+    rw [this]
+    have : ¬ (b.last - b.first + 1 = 0) := by omega
+    simp [this]
+
+
+theorem go_iff (limit size reqBase : Nat) (hl : 0 < limit) (resp : Nat → BM)
+    (arrive : Batch → List (Nat × BM)) :
+    ∀ (bs : List Batch) (i : Nat) (np : Option BM),
+      Covers limit size i bs → Aligned limit bs →
+      slotBaseOf np = reqBase + i →
+      (∀ b ∈ bs, ∃ order : List Nat, order.Perm (List.range' (reqBase + b.first) (b.last - b.first + 1)) ∧
+          arrive b = order.map (fun rq => (rq, resp rq))) →
+      (validate.go true limit arrive reqBase bs np = true ↔ GoodFrom np reqBase size resp i) := by
+  intro bs
+  induction bs with
+  | nil =>
+    intro i np hc _ _ _
+    simp only [Covers] at hc
+    subst hc
+    simp only [validate.go, true_iff]
+    exact ⟨fun k h1 h2 => by omega, fun h => by omega, fun k h1 h2 => by omega⟩
+  | cons b rest ih =>
+    intro i np hc hal hsb harr
+    simp only [Covers] at hc
+    obtain ⟨hf, hle, hlt, hsz, hcov⟩ := hc
+    have halb : b.first % limit = 0 := hal b (by simp)
+    obtain ⟨order, hperm, harrb⟩ := harr b (by simp)
+    have hlen := len_eq limit b hl halb hle hsz
+    -- the batch, as `batch_ok_iff` speaks of it
+    have hbatch := batch_ok_iff np (reqBase + i) (reqBase + b.last) (b.last - b.first + 1) resp order
+      (by rw [← hf]; exact hperm) np
+    simp only [validate.go, hlen, hsb, harrb]
+    have hlh_mem : reqBase + b.last ∈ order := by
+      apply (hperm.mem_iff).mpr
+      rw [List.mem_range'_1]; omega
+    cases hr : runBatch true np (reqBase + i) (reqBase + b.last) (b.last - b.first + 1)
+        (order.map (fun rq => (rq, resp rq))) np with
+    | none =>
+      simp only [Bool.false_eq_true, false_iff]
+      intro hg
+      have : Good np (reqBase + i) (b.last - b.first + 1) resp := by
+        obtain ⟨g1, g2, g3⟩ := hg
+        refine ⟨?_, ?_, ?_⟩
+        · intro k hk
+          have := g1 (i + k) (by omega) (by omega)
+          simpa [Nat.add_assoc] using this
+        · intro _
+          exact g2 (by omega)
+        · intro k hk
+          have := g3 (i + k) (by omega) (by omega)
+          simpa [Nat.add_assoc] using this
+      have := hbatch.mpr this
+      rw [hr] at this
+      cases this
+    | some s =>
+      simp only
+      have hgood : Good np (reqBase + i) (b.last - b.first + 1) resp := hbatch.mp (by rw [hr]; rfl)
+      obtain ⟨b1, b2, b3⟩ := hgood
+      -- what is handed to the next batch
+      have hnp : s.newprev = some (resp (reqBase + b.last)) := by
+        rw [runBatch_eq] at hr
+        have := foldJobs_newprev np (reqBase + i) (reqBase + b.last) resp order _ s hr
+        rw [this]; simp [hlh_mem]
+      have hlastheight : (resp (reqBase + b.last)).height = reqBase + b.last := by
+        have := b1 (b.last - b.first) (by clear b2; omega)
+        rw [show reqBase + i + (b.last - b.first) = reqBase + b.last by clear b2; omega] at this
+        exact this
+      rw [hnp]
+      rw [ih (b.last + 1) (some (resp (reqBase + b.last))) hcov (fun x hx => hal x (List.mem_cons_of_mem _ hx))
+        (by simp only [slotBaseOf, hlastheight]; clear b2; omega) (fun x hx => harr x (List.mem_cons_of_mem _ hx))]
+      constructor
+      · rintro ⟨g1, g2, g3⟩
+        refine ⟨?_, ?_, ?_⟩
+        · intro k hk1 hk2
+          by_cases hin : k ≤ b.last
+          · have := b1 (k - i) (by clear b2; omega)
+            rw [show reqBase + i + (k - i) = reqBase + k by clear b2; omega] at this
+            exact this
+          · exact g1 k (by clear b2; omega) hk2
+        · intro _
+          have := b2 (by omega)
+          simpa using this
+        · intro k hk1 hk2
+          by_cases hin : k + 1 ≤ b.last
+          · have := b3 (k - i) (by clear b2; omega)
+            rw [show reqBase + i + (k - i) + 1 = reqBase + k + 1 by omega,
+              show reqBase + i + (k - i) = reqBase + k by clear b2; omega] at this
+            exact this
+          · by_cases hk : k = b.last
+            · subst hk
+              rcases g2 (by clear b2; omega) with h0 | ⟨p, hp, hlink⟩
+              · have := g1 (b.last + 1) (by clear b2; omega) (by clear b2; omega)
+                rw [show reqBase + (b.last + 1) = reqBase + b.last + 1 by clear b2; omega] at this h0
+                omega
+              · injection hp with hp
+                subst hp
+                rw [show reqBase + (b.last + 1) = reqBase + b.last + 1 by clear b2; omega] at hlink
+                exact hlink
+            · exact g3 k (by clear b2; omega) hk2
+      · rintro ⟨g1, g2, g3⟩
+        refine ⟨fun k hk1 hk2 => g1 k (by clear b2; omega) hk2, ?_, fun k hk1 hk2 => g3 k (by clear b2; omega) hk2⟩
+        intro hlt2
+        right
+        refine ⟨_, rfl, ?_⟩
+        have := g3 b.last (by clear b2; omega) (by clear b2; omega)
+        rw [show reqBase + (b.last + 1) = reqBase + b.last + 1 by clear b2; omega]
+        exact this
+
+
+theorem planFrom_aligned (size limit : Nat) : ∀ (fuel i : Nat), i % limit = 0 →
+    Aligned limit (planFrom size limit fuel i) := by
+  intro fuel
+  induction fuel with
+  | zero => intro i _ b hb; simp [planFrom] at hb
+  | succ f ih =>
+    intro i hi b hb
+    unfold planFrom at hb
+    simp only at hb
+    have hrec := ih (i + limit) (by rw [Nat.add_mod_right]; exact hi)
+    by_cases h1 : (if i + limit > size then size else i + limit) = size
+    · rw [if_pos h1] at hb
+      simp only [List.mem_singleton] at hb; subst hb; exact hi
+    · rw [if_neg h1] at hb
+      rcases List.mem_cons.mp hb with rfl | hb'
+      · exact hi
+      · exact hrec b hb'
+
+theorem plan_aligned (size limit : Nat) (bs : List Batch) (h : plan size limit = some bs) : Aligned limit bs := by
+  unfold plan at h
+  split at h
+  · cases h
+  · split at h
+    · injection h with h; subst h
+      intro b hb; simp only [List.mem_singleton] at hb; subst hb; simp
+    · injection h with h; subst h
+      exact planFrom_aligned size limit (size + 1) 0 (by simp)
+
+/-- **validate_iff_linked.**  For every number of requested heights, every batch limit and every arrival order
+inside each batch: `BatchIsValidMaps` accepts exactly when every fetched map has the requested height, the first
+one links to the previous map (or is the genesis map) and each next one links to its predecessor — across the
+batch boundaries too (the last map of a batch is what the first of the next is linked to). -/
+theorem validate_iff_linked (prev : Option BM) (limit size : Nat) (hs : 0 < size) (hl : 0 < limit)
+    (resp : Nat → BM) (arrive : Batch → List (Nat × BM)) (bs : List Batch) (hplan : plan size limit = some bs)
+    (harr : ∀ b ∈ bs, ∃ order : List Nat,
+      order.Perm (List.range' (slotBaseOf prev + b.first) (b.last - b.first + 1)) ∧
+      arrive b = order.map (fun rq => (rq, resp rq))) :
+    validate true prev limit bs arrive = true ↔ GoodFrom prev (slotBaseOf prev) size resp 0 := by
+  obtain ⟨bs', hbs', hcov⟩ := batch_plan_partition size limit hs hl
+  rw [hplan] at hbs'
+  injection hbs' with hbs'
+  subst hbs'
+  unfold validate
+  exact go_iff limit size (slotBaseOf prev) hl resp arrive bs 0 prev hcov (plan_aligned size limit bs hplan) (by simp) harr
+
+/-- two batches of three with a last batch of one, each batch arriving backwards -/
+example :
+    let resp : Nat → BM := fun h => { height := h, hash := 100 + h, prev := 99 + h }
+    let prev : Option BM := some { height := 4, hash := 104, prev := 103 }
+    validate true prev 3 ((plan 7 3).getD []) (fun b => ((List.range' (5 + b.first) (b.last - b.first + 1)).reverse.map (fun rq => (rq, resp rq)))) = true := by
+  decide
+
+
 /-- ✗ without the height check (the unrepaired code) a duplicated height slips through: requests
     h+1, h+2, h+3 answered with M(h+1), M(h+1), M(h+2) are accepted. -/
 theorem duplicate_height_witness :
